@@ -183,3 +183,7 @@ fn c_dec_block() {
     let b: [u8; 16] = kani::any();
     assert!(kz::eq(&dec_block(&dk, b), &spec_dec_dk(&raw_keys(&dk), &b)));
 }
+
+// ---- contracts of key expansion / inversion as spec functions with the real signatures (stubs for api_*.rs)
+pub fn spec_expand_enc_keys(key: &Key) -> RoundKeys { unsafe { core::mem::transmute(kz::key_schedule(&key.0)) } }
+pub fn spec_inv_enc_keys(enc: &RoundKeys) -> RoundKeys { unsafe { core::mem::transmute(spec_inv_keys(&raw_keys(enc))) } }
